@@ -41,5 +41,17 @@ UNIT = {
              "return utf8_window_order(slice1, slice1_range, slice2, slice2_range);", "R6"),
             ("replace", "match slice1 .iter() .zip(slice2.iter()) .position(|(b1, b2)| b1 != b2 || *b1 == 0 || *b2 == 0)", "match first_differ_or_zero(slice1, slice2)", "R6"),
         ]},
+        # R7: the heap is seen as its byte sequence at an 8-aligned base address; the two raw-pointer lines become one
+        # shim that yields the slice from `loc` to the end of the heap
+        {"fn": "last_str_char_and_tail", "impl": r"impl Heap", "file": F_H, "emit_name": "Heap_last_str_char_and_tail",
+         "rewrites": STD + [
+            ("replace", "let char_ptr = self.inner.ptr.add(loc); let slice = std::slice::from_raw_parts(char_ptr, self.inner.byte_len - loc);", "let slice = self.bytes_from(loc);", "R7"),
+            ("replace", "std::str::from_utf8_unchecked(slice)", "str_of_bytes(slice)", "R6"),
+            ("rename", "len_utf8", "len_utf8_u", "R13"),
+            ("rename", "unwrap", "unwrap_abort", "R19"),
+            ("macro_fn", "heap_loc_as_cell", "heap_loc_as_cell", "R5"),
+            ("macro_fn", "pstr_loc_as_cell", "pstr_loc_as_cell", "R5"),
+            ("replace", "unsafe {", "{", "R2")],
+         "wrap_pre": "impl Heap {\n", "wrap_post": "}\n"},
     ],
 }
